@@ -295,7 +295,33 @@ func Ge(a, b Term) Term { return cmp(">=", a, b) }
 
 func Select(arr, idx Term) Term {
 	es := arrayElemSort(arr.Sort)
-	return App("select", es, arr, idx)
+	// read-over-write with syntactically decidable indices (concrete refs / identical terms)
+	cur := arr
+	for depth := 0; depth < 64; depth++ {
+		r := cur
+		if currentUniverse != nil && !strings.HasPrefix(r.S, "(") {
+			r = currentUniverse.Resolve(r)
+		}
+		if !strings.HasPrefix(r.S, "(store ") {
+			break
+		}
+		sx := sexpParse(r.S)
+		if sx == nil || len(sx.kids) != 4 {
+			break
+		}
+		i := sx.kids[2].String()
+		if i == idx.S {
+			return Term{sx.kids[3].String(), es}
+		}
+		a, okA := litValue(Term{i, SInt})
+		b, okB := litValue(idx)
+		if okA && okB && a.Cmp(b) != 0 {
+			cur = Term{sx.kids[1].String(), arr.Sort}
+			continue
+		}
+		break
+	}
+	return App("select", es, cur, idx)
 }
 
 func Store(arr, idx, v Term) Term {
